@@ -170,8 +170,11 @@ def run(ctx):
 
     import time as _t
     tfam = {}
-    for code in cat:
+    import resource as _res
+    for _ci, code in enumerate(cat):
         _t0 = _t.time()
+        if _ci % 40 == 0:
+            ctx.log("code %d/%d %s rss=%.1fGB" % (_ci, len(cat), code.name[:50], _res.getrusage(_res.RUSAGE_SELF).ru_maxrss / 1e6))
         enc = code.build()
         if enc is None:
             continue
